@@ -42,6 +42,14 @@ def gen_cases(tier, seed):
         cfg = workloads.gen_cfg(rng, pspec, pool='none')
         if cfg['n_batch'] <= 3:
             cfg.update(f_live=0.2, n_eff=100, n_live=30, n_networks=min(cfg['n_networks'], 1))
+        if i % 6 == 2:
+            # bimodal, few live points, no networks: bounds are not nested and transfer candidates can survive the end of
+            # exploration - they must never enter the post-exploration view
+            pspec = workloads.gen_problem(rng, family='mixture', d=3, blobs=pspec['blobs'], prior=pspec['prior'],
+                                          vectorized=pspec['vectorized'])
+            cfg = workloads.gen_cfg(rng, pspec, pool='none', n_batch=50, networks=0)
+            cfg.update(n_live=100, discard_exploration=True, n_eff=int(rng.choice([600, 1200])), n_shell=1,
+                       n_update=None, n_like_new_bound=None, periodic=None)
         if i % 6 == 4:
             cfg.update(n_update=1, n_live=int(rng.choice([10, 12, 15])), n_batch=int(rng.choice([1, 2])), f_live=1e-3,
                        n_networks=0, n_eff=int(rng.choice([30, 60])), n_shell=1, n_like_new_bound=None, enlarge_per_dim=2.0,
@@ -97,7 +105,7 @@ class SnapshotMonitor:
         self.viol = []
         self.obs = dict(snapshots=0, prefix_checks=0, geometry_checks=0, toggles=0, toggles_after_exploration=0,
                         toggles_before_exploration=0, view_recurrences_compared=0, sampling_batches_between_toggles=0,
-                        resumes_after_exploration=0, empty_discarded_views=0, discard_rows_traced_to_evaluation=0, bounds_frozen_max=0)
+                        resumes_after_exploration=0, empty_discarded_views=0, discard_rows_traced_to_evaluation=0, transfer_candidates_left_at_end_of_exploration=0, bounds_frozen_max=0)
         self.driver = None
         self.was_explored = False
         self.post_rows = set()       # unit points passed to the likelihood after exploration had ended
@@ -121,6 +129,8 @@ class SnapshotMonitor:
         if not self.was_explored:
             self.was_explored = True
             self.frozen = [bound_geometry_digest(b) for b in s.bounds]
+            self.obs['transfer_candidates_left_at_end_of_exploration'] += int(np.sum(np.asarray(s.shell_t) >= 0)) \
+                if len(np.atleast_1d(s.shell_t)) else 0
             # where exploration ended, observed independently of the sampler's own markers
             self.end_lens = np.array([len(p) for p in s.points])
             if len(s.shell_end_exp) != len(s.points) or not np.array_equal(np.asarray(s.shell_end_exp), self.end_lens):
